@@ -42,7 +42,7 @@ pub fn run_plan(
         // isolated any more; the engine's own verdict stands
         Judged { violations: res.violations.clone(), nontrivial: false }
     } else {
-        judge(&res, plan.ref_per_event, stats)?
+        judge(&res, plan.ref_per_event, plan.ref_process, stats)?
     };
     let lh = log_hash(&res.events);
     let sh = sched_hash(&res.events);
@@ -89,6 +89,7 @@ pub fn stats_json(s: &Stats) -> String {
         .num("runs", s.runs)
         .num("fault_free_runs", s.fault_free_runs)
         .num("ref_per_event_runs", s.ref_per_event_runs)
+        .num("ref_process_runs", s.ref_process_runs)
         .num("plan_steps", s.plan_steps)
         .num("events", s.events)
         .num("skipped", s.skipped)
@@ -112,6 +113,8 @@ pub fn stats_json(s: &Stats) -> String {
         .num("disc_global_ops", s.disc_global_ops)
         .num("disc_global_reads", s.disc_global_reads)
         .num("disc_inflight_ops", s.disc_inflight_ops)
+        .num("disc_inflight_foreign_ops", s.disc_inflight_foreign_ops)
+        .num("yield_points_passed", s.yield_points_passed)
         .num("max_live", s.max_live)
         .num("dtor_missing", s.dtor_missing)
         .num("violations", s.violations)
@@ -300,11 +303,13 @@ pub const FRESH_SALT: u64 = 0x4652_4553_4850_5243; // "FRESHPRC"
 pub fn main_plan(seed: u64, idx: u64, thorough: bool, main: bool) -> Plan {
     if !main {
         let mut g = gen_plan(run_seed(seed ^ FRESH_SALT, idx), idx, thorough);
+        g.plan.ref_process = true;
         g.plan.note = format!("fresh-process run: {}", g.plan.note);
         return g.plan;
     }
     let mut g = gen_plan(run_seed(seed ^ MAIN_SALT, idx), idx, thorough);
     g.plan.root_is_main = true;
+    g.plan.ref_process = true;
     g.plan.root_probe_early = false;
     g.plan.note = format!("main-thread run: {}", g.plan.note);
     g.plan
@@ -363,6 +368,9 @@ pub fn mainshard(a: ShardArgs, main: bool) -> Result<i32, String> {
             .arg(&a.out);
         if a.thorough {
             cmd.arg("--thorough");
+        }
+        if crate::gen::yields_enabled() {
+            cmd.arg("--yields");
         }
         let o = cmd.output().map_err(|e| format!("spawn mainrun: {}", e))?;
         let so = String::from_utf8_lossy(&o.stdout).to_string();
